@@ -1868,12 +1868,14 @@ func runC10(run *Run, rng *Rng, tier string) error {
 	if tier == "thorough" {
 		scale = 12
 	}
+	run.shard = 200 // C10 case terms are large (whole resource lists): smaller shards, more parallelism
 	run.Meta.Rule = "micro-cases per matcher on near-miss families (names x, x-1, ax, x.y, xzy, ...; images x, x:1, reg:5000/x@sha256:..., ...; " +
 		"entries / patterns incl. regexp metacharacters and a non-compiling one): regexp vs derivative matcher on generated patterns of the fragment; " +
 		"imagetag.Filter on one value; ImageTagTransformer / ReplicaCountTransformer / resWrangler.Select on ResMaps of 1-6 resources (previous-id annotations, " +
 		"odd container shapes); SmarterPathSplitter; PathMatcher (all part kinds, Create of each kind) ; replacement.Filter (source/target/reject selectors, " +
 		"delimiter/index/create options). non-trivial = something matched / was modified; distinct by hash of the case term. " +
 		"Oracle: krusty.Run builds on an in-memory FS, modified (resource, field, value) set compared with an independent matcher's prediction."
+	finishOracle := c10StartOracle(rng.Fork(), tier)
 	imgFs, repFs := krusty.VerifC10DefaultFieldSpecs()
 	// runtime tables vs translated tables (the model of the transformer cases uses the translated ones)
 	run.AddCase(fmt.Sprintf("(KFsTab %s %s)", c10CoqFs(imgFs), c10CoqFs(repFs)), map[string]string{"kind": "fstab"}, false)
@@ -2019,7 +2021,7 @@ func runC10(run *Run, rng *Rng, tier string) error {
 		}
 	}
 	// ---- oracles on whole builds
-	return c10RunOracle(run, rng.Fork(), tier)
+	return finishOracle(run)
 }
 
 // c10ExpectHang: Create with a list selector whose value (as a regexp) does not match itself.
